@@ -87,7 +87,7 @@ def relation_to_py(x):
 def _same(a, b):
     if isinstance(a, float) and isinstance(b, float):
         return (math.isnan(a) and math.isnan(b)) or a == b
-    if isinstance(a, list) and isinstance(b, list):
+    if isinstance(a, (list, tuple)) and isinstance(b, (list, tuple)):
         return len(a) == len(b) and all(_same(x, y) for x, y in zip(a, b))
     if type(a).__module__.startswith("cr.cube") or type(b).__module__.startswith("cr.cube"):
         return type(a) is type(b)
